@@ -720,14 +720,17 @@ func fix128BigIntToFix64(
 	bigInt *big.Int,
 ) Fix64Value {
 
-	if bigInt.Cmp(fixedpoint.Fix64TypeMaxScaledTo128) > 0 {
+	// Truncate toward zero, instead of rounding toward negative infinity.
+	bigInt = bigInt.Quo(bigInt, fixedpoint.Fix64ToFix128FactorAsBigInt)
+
+	// Check the bounds after truncating: a value which exceeds the bounds
+	// by less than the precision of the target type truncates to the bound.
+	if bigInt.Cmp(fixedpoint.Fix64TypeMax) > 0 {
 		panic(&OverflowError{})
-	} else if bigInt.Cmp(fixedpoint.Fix64TypeMinScaledTo128) < 0 {
+	} else if bigInt.Cmp(fixedpoint.Fix64TypeMin) < 0 {
 		panic(&UnderflowError{})
 	}
 
-	// Truncate toward zero, instead of rounding toward negative infinity.
-	bigInt = bigInt.Quo(bigInt, fixedpoint.Fix64ToFix128FactorAsBigInt)
 	return NewFix64Value(
 		memoryGauge,
 		func() int64 {
